@@ -60,6 +60,12 @@ func (l *lexer) Lex(lval *yySymType) int {
 			return EOF
 		}
 
+		// The grammar has no float, char or raw string tokens. Their scanner codes are negative,
+		// goyacc takes a negative code for "no lookahead yet" and silently skips the token.
+		if token == scanner.Float || token == scanner.Char || token == scanner.RawString {
+			return yyLexErrorf(l, "unexpected token %v", text)
+		}
+
 		switch token {
 		case scanner.Ident:
 			keyword, ok := keywords[text]
